@@ -135,6 +135,7 @@ def gen_lemma(ctx: Ctx, name: str):
 
 _CTX = {}
 SCOPE_K = int(os.environ.get("PYVC_SCOPE", "4"))
+COVER_K = 2  # reachability (cover) queries only need some model: a smaller scope keeps them cheap
 
 
 def _ctx_for(mods, expand=0):
@@ -142,7 +143,7 @@ def _ctx_for(mods, expand=0):
     if (tuple(mods), 0) not in _CTX and (tuple(mods), SCOPE_K) not in _CTX:
         load_sidecars(mods)
     if key not in _CTX:
-        _CTX[key] = Ctx(expand_quant=expand)
+        _CTX[key] = Ctx(expand_quant=expand, max_depth=3 if expand == COVER_K else 7)
     return _CTX[key]
 
 
@@ -192,23 +193,39 @@ def worker(task):
     gen_s = time.time() - t_start
     results = []
     cex = None  # lazily generated small-scope version
+    cov = None
+    n_ax = len(ctx.axioms_z3)
     for i, o in enumerate(obls):
         if i % n != k:
             continue
         if o.kind == "cover":
             # reachability is decided in small-scope mode (a model is what we want)
             try:
-                if cex is None:
-                    cex = generate(mods, kind, key, SCOPE_K)
-                cctx, cobls = cex[0], cex[1]
+                if cov is None:
+                    cov = generate(mods, kind, key, COVER_K)
+                    cov = (cov[0], cov[1], list(cov[0].scope_assumptions))
+                cctx, cobls = cov[0], cov[1]
                 co = cobls[i]
                 assert co.name == o.name
-                r, dt, model, s = check(tuple(co.pc) + tuple(cctx.scope_assumptions), None, min(timeout_ms, 20000), want_model=False)
+                r, dt, model, s = check(tuple(co.pc) + tuple(cov[2]), None, min(timeout_ms, 5000), want_model=False)
             except Exception as e:
                 r, dt = "unknown", 0.0
             results.append(dict(name=o.name, line=o.line, kind="cover", result=r, s=round(dt, 3), backend="z3-5.1.0"))
             continue
-        r, dt, model, s = check(o.pc, o.goal, timeout_ms)
+        # staged attempts (cumulative, so load on the machine changes the time, not the verdict):
+        # full hypotheses briefly; then without the quantified requires/invariants (dropping
+        # hypotheses is sound for a proof, and pure unfolding obligations go through at once);
+        # then the full set with the whole budget
+        light = tuple(p for j, p in enumerate(o.pc) if j < n_ax or not has_quantifier([p]))
+        r, dt, model, s = check(o.pc, o.goal, min(4000, timeout_ms))
+        if r == "unknown" and len(light) < len(o.pc):
+            r2, dt2, _, _ = check(light, o.goal, min(12000, timeout_ms))
+            dt += dt2
+            if r2 == "unsat":
+                r = "unsat"
+        if r == "unknown":
+            r, dt2, model, s = check(o.pc, o.goal, timeout_ms)
+            dt += dt2
         backend = "z3-5.1.0"
         quant = None
         rec = dict(name=o.name, line=o.line, kind="assert", note=o.note)
@@ -219,10 +236,11 @@ def worker(task):
             try:
                 if cex is None:
                     cex = generate(mods, kind, key, SCOPE_K)
+                    cex = cex + (list(cex[0].scope_assumptions),)
                 cctx, cobls, centry = cex[0], cex[1], cex[2]
                 co = cobls[i]
                 assert co.name == o.name, (co.name, o.name)
-                r2, dt2, model2, _ = check(tuple(co.pc) + tuple(cctx.scope_assumptions), co.goal, timeout_ms)
+                r2, dt2, model2, _ = check(tuple(co.pc) + tuple(cex[5]), co.goal, min(timeout_ms, 20000))
                 dt += dt2
                 if r2 == "sat":
                     r, model = "sat", model2
@@ -236,14 +254,17 @@ def worker(task):
                 rec["small_scope"] = f"error: {e}"
         if r == "unknown":
             # (b) second attempt with a doubled budget and another seed, then other solvers
-            s2 = z3.Solver()
-            s2.set("timeout", 2 * timeout_ms)
-            s2.set("random_seed", 7)
-            for p in o.pc:
-                s2.add(p)
-            s2.add(z3.Not(o.goal))
             t0 = time.time()
-            r2 = str(s2.check())
+            r2, _, _, _ = check(light, o.goal, 2 * timeout_ms)
+            if r2 != "unsat":
+                s2 = z3.Solver()
+                s2.set("timeout", 2 * timeout_ms)
+                s2.set("mbqi", False)
+                s2.set("random_seed", 7)
+                for p in o.pc:
+                    s2.add(p)
+                s2.add(z3.Not(o.goal))
+                r2 = str(s2.check())
             dt += time.time() - t0
             if r2 == "unsat":
                 r = r2
